@@ -269,7 +269,15 @@ func runC12(c *Ctx) {
 		// timer passes t.Key; Key assigned from config.Key; config.Key is the encoding
 		c.Anchor("C12.4", "timer key")
 		okTimer := false
-		for _, a := range startRtx.AnonFuncs {
+		var timerBodies []*ssa.Function
+		w.eachInstr(startRtx, func(in ssa.Instruction) {
+			if call, ok := in.(*ssa.Call); ok && call.Call.StaticCallee() == timeAfterFunc(w) {
+				if mc, isMC := call.Call.Args[1].(*ssa.MakeClosure); isMC {
+					timerBodies = append(timerBodies, w.helpersOf(w.closureBody(mc))...)
+				}
+			}
+		})
+		for _, a := range timerBodies {
 			w.eachInstr(a, func(in ssa.Instruction) {
 				call, ok := in.(*ssa.Call)
 				if !ok || call.Call.StaticCallee() != nil || call.Call.IsInvoke() || len(call.Call.Args) != 2 {
@@ -312,14 +320,32 @@ func runC12(c *Ctx) {
 	c.Rule("C12.5", "schedule constants located by use: in onRtxTimeout the give-up edge is nRtx == K with K = 7; in the timer closure of StartRtxTimer nRtx is incremented by the constant 1 and that value is passed to the callback; the interval is multiplied by the constant 2 on every firing (the store is not control-dependent on a comparison of the interval) and a store of the constant 1.6 s lies on the edge interval > 1.6 s; the timer is armed with t.interval", 4)
 	{
 		c.Anchor("C12.5", "give-up count")
+		// located by use: the retransmission write happens only while the counter has not
+		// reached K (nRtx != K, or nRtx < K), whichever way the branch is written
 		k := int64(-1)
-		w.eachInstr(onRtx, func(in ssa.Instruction) {
-			if bo, ok := in.(*ssa.BinOp); ok && bo.Op == token.EQL {
-				for _, pair := range [][2]ssa.Value{{bo.X, bo.Y}, {bo.Y, bo.X}} {
-					if w.sameKey(pair[0], onRtx.Params[2]) {
-						if kk, isK := constInt(pair[1]); isK {
-							k = kk
+		w.eachInstrDeep(onRtx, func(in ssa.Instruction) {
+			call, ok := in.(*ssa.Call)
+			if !ok || !call.Call.IsInvoke() || call.Call.Method.Name() != "WriteTo" {
+				return
+			}
+			for _, f := range w.factsAt(in) {
+				switch {
+				case f.Op == "==" && !f.Truth:
+					for _, pair := range [][2]ssa.Value{{f.X, f.Y}, {f.Y, f.X}} {
+						if w.sameKey(pair[0], onRtx.Params[2]) {
+							if kk, isK := constInt(pair[1]); isK {
+								k = kk
+							}
 						}
+					}
+				case f.Op == "<" && f.Truth && w.sameKey(f.X, onRtx.Params[2]):
+					if kk, isK := constInt(f.Y); isK {
+						k = kk
+					}
+				case f.Op == "<" && !f.Truth && w.sameKey(f.Y, onRtx.Params[2]):
+					// !(K' < nRtx)  ==  nRtx <= K'  ==  nRtx < K'+1
+					if kk, isK := constInt(f.X); isK {
+						k = kk + 1
 					}
 				}
 			}
@@ -344,14 +370,28 @@ func runC12(c *Ctx) {
 		} else {
 			okInc, okDouble, okCap, okArm := false, false, false, false
 			doubleWhy := "no store of interval*2"
+			isIntervalLoad := func(v ssa.Value) bool {
+				_, f, isL := fieldLoad(w.resolveLoad(v))
+				return isL && nm(f) == "interval"
+			}
 			isDoubled := func(v ssa.Value) bool {
 				bo, ok := v.(*ssa.BinOp)
-				if !ok || bo.Op != token.MUL {
+				if !ok {
+					return false
+				}
+				switch bo.Op {
+				case token.ADD: // x + x
+					return isIntervalLoad(bo.X) && isIntervalLoad(bo.Y)
+				case token.SHL: // x << 1
+					k, isK := constInt(bo.Y)
+					return isK && k == 1 && isIntervalLoad(bo.X)
+				case token.MUL:
+				default:
 					return false
 				}
 				for _, p := range [][2]ssa.Value{{bo.X, bo.Y}, {bo.Y, bo.X}} {
 					if kk, isK := constInt(p[1]); isK && kk == 2 {
-						if _, f, isL := fieldLoad(w.resolveLoad(p[0])); isL && f.Name() == "interval" {
+						if _, f, isL := fieldLoad(w.resolveLoad(p[0])); isL && nm(f) == "interval" {
 							return true
 						}
 					}
@@ -368,7 +408,7 @@ func runC12(c *Ctx) {
 						if side == nil {
 							continue
 						}
-						if _, ff, isL := fieldLoad(under(side)); isL && ff.Name() == "interval" {
+						if _, ff, isL := fieldLoad(under(side)); isL && nm(ff) == "interval" {
 							return false
 						}
 					}
@@ -384,11 +424,11 @@ func runC12(c *Ctx) {
 				if !ok {
 					return
 				}
-				switch fieldOf(fa).Name() {
+				switch nm(fieldOf(fa)) {
 				case "nRtx":
 					if bo, ok := st.Val.(*ssa.BinOp); ok && bo.Op == token.ADD {
 						if kk, isK := constInt(bo.Y); isK && kk == 1 {
-							if _, f, isL := fieldLoad(bo.X); isL && f.Name() == "nRtx" {
+							if _, f, isL := fieldLoad(bo.X); isL && nm(f) == "nRtx" {
 								okInc = true
 							}
 						}
@@ -407,7 +447,7 @@ func runC12(c *Ctx) {
 						for _, f := range w.factsAt(in) {
 							if f.Op == "<" && f.Truth { // cap < interval
 								if isCap(f.X) {
-									if _, ff, isL := fieldLoad(f.Y); isL && ff.Name() == "interval" {
+									if _, ff, isL := fieldLoad(f.Y); isL && nm(ff) == "interval" {
 										okCap = true
 									}
 								}
@@ -451,7 +491,7 @@ func runC12(c *Ctx) {
 			af := timeAfterFunc(w)
 			w.eachInstr(startRtx, func(in ssa.Instruction) {
 				if call, ok := in.(*ssa.Call); ok && call.Call.StaticCallee() == af {
-					if _, f, isL := fieldLoad(call.Call.Args[0]); isL && f.Name() == "interval" {
+					if _, f, isL := fieldLoad(call.Call.Args[0]); isL && nm(f) == "interval" {
 						okArm = true
 					}
 				}
